@@ -97,6 +97,16 @@ CHECKS.update({
                 text="2-6 simulated client goroutines issue 1-4 once(key, callable) calls over 1-3 keys on one cache; callables yield inside the write lock and return a unique value or fail. The recorded invoke/return history (stamped with the simulator's event sequence) is checked with porcupine against the sequential model (a map; once returns the stored value without calling, else calls; a failure stores nothing), plus: at most one successful invocation per key, all successful callers of a key receive the same value.",
                 note="porcupine timeouts (30 s) are counted, never reported.", technique="deterministic simulation + linearizability checking (porcupine) against a sequential reference model",
                 design="§4 C20", real=REAL_E3, rule="one case = one history of <=24 operations", assumptions=["nested once on the same cache from inside a callable self-deadlocks by construction and is not generated"]),
+    "C10": dict(engine="mvs", category="exploration",
+                text="Generated universes (1-3 repositories incl. sub-path projects and @v2/@v3 major-version paths, 2-8 projects x 1-5 versions incl. prereleases, requirement edges of any shape incl. diamonds and cycles, occasionally a dangling requirement) resolved by the real BuildList with pgavlin/mvs' 10 par.Work workers as simulated goroutines. Oracle: with no fault injected the result equals an independent reachability/semver-max model exactly (or fails iff a reachable requirement does not exist); repeated under permuted declaration order and names, other map-order and schedule tapes, cold / warm / partially pre-filled caches. In the fault configuration (dial/list/get-revision/fetch errors from the repositories, ENOSPC/EIO/EACCES/EMFILE on the resolver's own file operations) the call may fail but never returns a different map, and once faults stop one more call succeeds.",
+                note="The repositories are stubs: their checkout is written with the real os package (no injected I/O faults inside the stub). A poisoned cache left by a half-written checkout is outside the statement.",
+                technique="deterministic simulation: seeded worker interleavings and map orders, injected VCS and I/O faults, metamorphic repeats against a reference model",
+                design="§4 C10", real=REAL_E4, rule="one case = one universe with 2-4 resolutions; distinct by (universe, interleaving) hash", assumptions=[]),
+    "C11": dict(engine="mvs", category="exploration",
+                text="Histories of 1-5 tidy / upgrade-all / get(path@query) operations (queries: none, latest, upgrade, patch, exact, prefix, >, >=, <, <=) on a root requirement set over the same universes, each applied by the real code in a fresh simulated process. Relational oracle on dawn's own outputs: tidy keeps the build list; upgrade-type gets and upgrade-all lower no project and leave the queried project at or above a lower-bounded/exact request; downgrade-type gets leave it at or below the request (or drop it); names of still-required projects are preserved and not reused; results resolve; every operation terminates; repeating it changes nothing.",
+                note="Known finding K1 (get is not idempotent when MVS cannot land exactly on the resolved version) is listed in known_findings.json and reported as KNOWN-FINDING.",
+                technique="deterministic simulation: seeded operation histories, relational oracles between successive build lists, termination by step budget",
+                design="§4 C11", real=REAL_E4, rule="one case = one history; every operation costs 3 resolutions", assumptions=["ref/branch queries are not generated (the stub repositories hold one project per revision)"]),
 })
 
 NOT_APPLICABLE = {
@@ -107,7 +117,7 @@ NOT_APPLICABLE = {
     "C19": "config write/load round-trip is a pure function; the file is only a carrier (DESIGN.md §5)",
 }
 
-PENDING = {p: "claimed in DESIGN.md; its check is still being built in this session and is not registered until it runs clean on the unchanged tree" for p in "C10 C11".split()}  # property -> reason while its engine is not built yet
+PENDING = {p: "claimed in DESIGN.md; its check is still being built in this session and is not registered until it runs clean on the unchanged tree" for p in "".split()}  # property -> reason while its engine is not built yet
 
 
 def main():
